@@ -78,6 +78,9 @@ func (t *ServerTransport) Handshake(handshakePacket *parser.Packet, w http.Respo
 	}
 	if t.readLimit != 0 {
 		t.conn.SetReadLimit(t.readLimit)
+	} else {
+		// No limit is configured: lift the default limit (32768 bytes) of the websocket library too.
+		t.conn.SetReadLimit(-1)
 	}
 	// sid is only for webtransport
 	return "", t.writeHandshakePacket(handshakePacket)
